@@ -29,7 +29,8 @@ func init() {
 
 const tolMS = 100 // tolerance of the meaning oracle, each side (DESIGN: 0.1 s)
 
-var clockOffsets = []int64{0, 400 * 86400, -3 * 365 * 86400}
+// not multiples of a day, hour or minute: every field of a time value differs
+var clockOffsets = []int64{0, 400*86400 + 7*3600 + 13*60 + 27, -(3*365*86400 + 5*3600 + 41*60 + 13)}
 
 type lane struct {
 	id    int
@@ -153,33 +154,57 @@ func expectedMS(ms int64) int64 {
 	return int64(math.Round((jd - 2440587.5) * 86400000.0))
 }
 
-// judge runs all oracles on one spec.
-func (ln *lane) judge(sp *spec, proc processFn) *verdict {
-	ro := render(sp, false, 0)
-	v := &verdict{Orig: ro.SQL, Params: ro.Params, Kinds: map[string]string{}}
-	rew, t0, t1, perr := proc(ro.SQL, ro.Params)
-	v.Rew = rew
-	if perr != nil {
-		v.Kinds["process-error"] = perr.Error()
+// judge runs all oracles on a batch of specs (one round trip per evaluator).
+func (ln *lane) judge(specs []*spec, proc processFn) []*verdict {
+	n := len(specs)
+	out := make([]*verdict, n)
+	ros := make([]*rendered, n)
+	t0s, t1s := make([]int64, n), make([]int64, n)
+	perrs := make([]error, n)
+	items := make([]item, 0, 3*n)
+	for i, sp := range specs {
+		ro := render(sp, false, 0)
+		ros[i] = ro
+		v := &verdict{Orig: ro.SQL, Params: ro.Params, Kinds: map[string]string{}}
+		out[i] = v
+		v.Rew, t0s[i], t1s[i], perrs[i] = proc(ro.SQL, ro.Params)
+		if perrs[i] != nil {
+			v.Kinds["process-error"] = perrs[i].Error()
+		}
+		items = append(items,
+			item{SQL: ro.SQL, Params: ro.Params, Mode: ro.Mode},
+			item{SQL: v.Rew, Params: ro.Params, Mode: ro.Mode},
+			item{SQL: v.Rew, Params: ro.Params, Mode: ro.Mode})
 	}
-	items := []item{
-		{SQL: ro.SQL, Params: ro.Params, Mode: ro.Mode},
-		{SQL: rew, Params: ro.Params, Mode: ro.Mode},
-		{SQL: rew, Params: ro.Params, Mode: ro.Mode},
+	if n == 0 {
+		return out
 	}
 	rs, err := ln.evalRemote(items)
 	if err != nil {
-		v.Invalid = "evaluator: " + err.Error()
 		ln.dead = true
-		return v
+		for _, v := range out {
+			v.Invalid = "evaluator: " + err.Error()
+		}
+		return out
 	}
-	o0 := &rs[0].Obs[0]
+	for i := range specs {
+		var obs3 [3][]obs
+		for e := 0; e < 3; e++ {
+			obs3[e] = rs[e].Obs[3*i : 3*i+3]
+		}
+		ln.decide(specs[i], ros[i], out[i], obs3, t0s[i], t1s[i], perrs[i])
+	}
+	return out
+}
+
+func (ln *lane) decide(sp *spec, ro *rendered, v *verdict, rs [3][]obs, t0, t1 int64, perr error) {
+	o0 := &rs[0][0]
 	if o0.Err != "" {
 		v.Invalid = "generator produced SQL that SQLite rejects: " + o0.Err
-		return v
+		return
 	}
 	if perr != nil {
-		return v // the statement was refused; nothing else to compare
+		return // the statement was refused; nothing else to compare
 	}
 
 	// pinned reference, evaluated in this process (it contains no 'now')
@@ -210,6 +235,16 @@ func (ln *lane) judge(sp *spec, proc processFn) *verdict {
 				return false, last
 			}
 		}
+		// a reference that is the same at both ends of the window and at the
+		// hint does not depend on the instant within it
+		pl, _ := pinned(lo)
+		ph, _ := pinned(hi)
+		if pl == got || ph == got {
+			return true, ""
+		}
+		if p0, _ := pinned(first[0]); pl == ph && pl == p0 {
+			return false, last
+		}
 		v.Scanned = true
 		for T := lo; T <= hi; T++ {
 			pv, _ := pinned(T)
@@ -227,14 +262,14 @@ func (ln *lane) judge(sp *spec, proc processFn) *verdict {
 	if ok, near := member(ov, []int64{o0.T0, o0.T1, o0.T0 + 1}, o0.T0-3, o0.T1+3); !ok {
 		_, ps := pinned(o0.T0)
 		v.Invalid = "reference-mismatch: " + firstDiff(ov, near) + " | pinned: " + ps
-		return v
+		return
 	}
 
 	// (a) determinism of the rewritten text: six evaluations, three clocks
-	base := view(&rs[0].Obs[1], ro, mND)
+	base := view(&rs[0][1], ro, mND)
 	for i := 0; i < 3; i++ {
 		for j := 1; j <= 2; j++ {
-			if x := view(&rs[i].Obs[j], ro, mND); x != base {
+			if x := view(&rs[i][j], ro, mND); x != base {
 				if _, seen := v.Kinds["nondeterministic"]; !seen {
 					v.Kinds["nondeterministic"] = fmt.Sprintf("rewritten text gives different results (evaluator clock %+dd, run %d): %s",
 						clockOffsets[i]/86400, j, firstDiff(base, x))
@@ -243,20 +278,24 @@ func (ln *lane) judge(sp *spec, proc processFn) *verdict {
 		}
 	}
 	ob := view(o0, ro, mND)
-	if view(&rs[1].Obs[0], ro, mND) != ob || view(&rs[2].Obs[0], ro, mND) != ob {
+	if view(&rs[1][0], ro, mND) != ob || view(&rs[2][0], ro, mND) != ob {
 		v.OrigND = true
 	}
 
 	// (b) meaning: the rewritten text, evaluated under the unskewed clock, must
-	// equal the reference for an instant inside [t0 - tol, t1 + tol].
-	rv := view(&rs[0].Obs[1], ro, mRand)
-	hint := expectedMS(t0)
-	if ok, near := member(rv, []int64{hint, hint - 1, hint + 1, t0, t1}, t0-tolMS, t1+tolMS); !ok {
-		d := firstDiff(rv, near)
-		if rs[0].Obs[1].Err != "" {
-			d = "rewritten text fails: " + rs[0].Obs[1].Err
+	// equal the reference for an instant inside [t0 - tol, t1 + tol]. Only
+	// judged when the rewritten text is deterministic: a text that still reads
+	// the clock cannot be compared with a reference for one instant.
+	if _, nd := v.Kinds["nondeterministic"]; !nd {
+		rv := view(&rs[0][1], ro, mRand)
+		hint := expectedMS(t0)
+		if ok, near := member(rv, []int64{hint, hint - 1, hint + 1, t0, t1}, t0-tolMS, t1+tolMS); !ok {
+			d := firstDiff(rv, near)
+			if rs[0][1].Err != "" {
+				d = "rewritten text fails: " + rs[0][1].Err
+			}
+			v.Kinds["meaning"] = "rewritten vs reference (got vs want): " + d
 		}
-		v.Kinds["meaning"] = "rewritten vs reference (got vs want): " + d
 	}
 
 	// (c) identity
@@ -266,15 +305,37 @@ func (ln *lane) judge(sp *spec, proc processFn) *verdict {
 			claimed = true
 		}
 	}
-	if !claimed && rew != ro.SQL {
+	if !claimed && v.Rew != ro.SQL {
 		v.Kinds["not-identical"] = "statement without rewritable calls was altered"
 	}
-	return v
 }
 
 // ---------------------------------------------------------------------------
 // Reduction of a failing spec to the constructs that are responsible.
 // ---------------------------------------------------------------------------
+
+// canonical is the plainest call that can show a failure at a position.
+func canonical(kind string, c call, failing string) (call, bool) {
+	if failing == "not-identical" {
+		if !isTimeFn(c.Fn) || (c.Fn == "date" && c.Form == "lit" && c.N == 0) {
+			return c, false
+		}
+		return call{Fn: "date", Form: "lit", Pos: c.Pos}, true
+	}
+	var n call
+	switch posRole(c.Pos) {
+	case "out":
+		n = call{Fn: "random", Pos: c.Pos, Gap: c.Gap, Case: c.Case}
+	case "cond":
+		n = call{Fn: "date", Form: "now", Pos: c.Pos, Gap: c.Gap, Case: c.Case, Wrap: "lt25"}
+	default:
+		n = call{Fn: "date", Form: "now", Pos: c.Pos, Gap: c.Gap, Case: c.Case}
+	}
+	if n.Fn == c.Fn && n.Form == c.Form && n.Wrap == c.Wrap && len(c.Mods) == 0 {
+		return c, false
+	}
+	return n, true
+}
 
 func reductions(sp *spec, kind string) []*spec {
 	var out []*spec
@@ -289,35 +350,54 @@ func reductions(sp *spec, kind string) []*spec {
 		i := i
 		add(func(s *spec) bool { s.Feats = append(s.Feats[:i:i], s.Feats[i+1:]...); return true })
 	}
-	add(func(s *spec) bool { ok := s.Decoy != 0; s.Decoy = 0; return ok })
 	for i := range sp.Calls {
 		i := i
 		add(func(s *spec) bool { s.Calls = append(s.Calls[:i:i], s.Calls[i+1:]...); return true })
 	}
+	rekind := func(to string) {
+		add(func(s *spec) bool {
+			if s.Kind == to {
+				return false
+			}
+			s.Kind = to
+			if to == "select" {
+				s.Ret = 0
+			}
+			var fs []string
+			for _, t := range s.Feats {
+				if f := featByTag[t]; f != nil && featApplies(f, s) {
+					fs = append(fs, t)
+				}
+			}
+			s.Feats = fs
+			for i := range s.Calls {
+				if !inList(kindPos[to], s.Calls[i].Pos) {
+					s.Calls[i].Pos = defaultPos(to)
+				}
+			}
+			return true
+		})
+	}
+	rekind("select")
+	rekind("insert")
+	add(func(s *spec) bool { // RETURNING forced by a call there: make it explicit, move the call
+		moved := false
+		for i := range s.Calls {
+			if s.Calls[i].Pos == "returning" {
+				s.Calls[i].Pos = defaultPos(s.Kind)
+				moved = true
+			}
+		}
+		if moved && s.Ret == 0 {
+			s.Ret = 1
+		}
+		return moved
+	})
 	add(func(s *spec) bool {
 		if s.Ret == 0 {
 			return false
 		}
 		s.Ret--
-		return true
-	})
-	add(func(s *spec) bool {
-		if s.Kind == "select" {
-			return false
-		}
-		s.Kind, s.Ret = "select", 0
-		var fs []string
-		for _, t := range s.Feats {
-			if f := featByTag[t]; f != nil && featApplies(f, s) {
-				fs = append(fs, t)
-			}
-		}
-		s.Feats = fs
-		for i := range s.Calls {
-			if !inList(kindPos["select"], s.Calls[i].Pos) {
-				s.Calls[i].Pos = "item"
-			}
-		}
 		return true
 	})
 	for i := range sp.Calls {
@@ -329,6 +409,11 @@ func reductions(sp *spec, kind string) []*spec {
 			}
 			s.Calls[i].Pos = defaultPos(s.Kind)
 			return true
+		})
+		add(func(s *spec) bool {
+			n, ok := canonical(s.Kind, c, kind)
+			s.Calls[i] = n
+			return ok
 		})
 		add(func(s *spec) bool { ok := c.Gap != ""; s.Calls[i].Gap = ""; return ok })
 		add(func(s *spec) bool { ok := c.Case != 0; s.Calls[i].Case = 0; return ok })
@@ -359,49 +444,113 @@ func reductions(sp *spec, kind string) []*spec {
 			}
 			return false
 		})
-		add(func(s *spec) bool { // the plainest rewritable call
-			if kind == "not-identical" {
-				if c.Fn == "date" && c.Form == "lit" && c.N == 0 {
-					return false
-				}
-				if !isTimeFn(c.Fn) {
-					return false
-				}
-				s.Calls[i] = call{Fn: "date", Form: "lit", Pos: c.Pos}
-				return true
-			}
-			if c.Fn == "random" {
+		add(func(s *spec) bool { // which function it is only matters for the implicit forms
+			if !isTimeFn(c.Fn) || c.Fn == "date" || c.Form == "implicit" {
 				return false
 			}
-			s.Calls[i] = call{Fn: "random", Pos: c.Pos, Gap: c.Gap, Case: c.Case}
+			s.Calls[i].Fn, s.Calls[i].Fmt, s.Calls[i].Side = "date", "", 0
 			return true
 		})
 	}
 	return out
 }
 
-func (ln *lane) minimize(sp *spec, kind string, budget *int) *spec {
+// minCache remembers, per failing kind and spec signature, the reduced spec.
+type minCache struct {
+	mu sync.Mutex
+	m  map[string]*spec
+}
+
+func (mc *minCache) get(kind string, sp *spec) *spec {
+	mc.mu.Lock()
+	defer mc.mu.Unlock()
+	return mc.m[kind+"|"+sp.sig()]
+}
+
+func (mc *minCache) put(kind string, sigs []string, res *spec) {
+	mc.mu.Lock()
+	defer mc.mu.Unlock()
+	for _, s := range sigs {
+		mc.m[kind+"|"+s] = res
+	}
+}
+
+// jumps are big reductions tried first: one call alone, or one feature with
+// the plainest call.
+func jumps(sp *spec, kind string) []*spec {
+	var out []*spec
+	if len(sp.Calls)+len(sp.Feats) <= 1 {
+		return nil
+	}
+	for i := range sp.Calls {
+		n := sp.clone()
+		n.Calls = []call{n.Calls[i]}
+		n.Feats = nil
+		normalize(n)
+		out = append(out, n)
+	}
+	for _, f := range sp.Feats {
+		n := sp.clone()
+		base := call{Fn: "random", Pos: defaultPos(n.Kind)}
+		if kind == "not-identical" {
+			base = call{Fn: "date", Form: "lit", Pos: defaultPos(n.Kind)}
+		} else if posRole(base.Pos) == "cond" {
+			base = call{Fn: "date", Form: "now", Wrap: "lt25", Pos: base.Pos}
+		}
+		n.Calls = []call{base}
+		n.Feats = []string{f}
+		normalize(n)
+		out = append(out, n)
+	}
+	return out
+}
+
+func (ln *lane) minimize(sp *spec, kind string, judged *int64, mc *minCache) *spec {
 	cur := sp.clone()
-	for {
-		progressed := false
-		for _, cand := range reductions(cur, kind) {
-			if *budget <= 0 {
-				return cur
+	visited := []string{cur.sig()}
+	fails := func(cands []*spec) *spec {
+		const chunk = 12
+		for len(cands) > 0 {
+			k := chunk
+			if k > len(cands) {
+				k = len(cands)
 			}
-			*budget--
-			v := ln.judge(cand, processLocal)
-			if v.Invalid == "" {
-				if _, bad := v.Kinds[kind]; bad {
-					cur = cand
-					progressed = true
-					break
+			vs := ln.judge(cands[:k], processLocal)
+			*judged += int64(k)
+			if os.Getenv("C14_TRACE") != "" {
+				for i, v := range vs {
+					fmt.Fprintf(os.Stderr, "  cand %-60s kinds=%v invalid=%.80s\n", cands[i].sig(), v.Kinds, v.Invalid)
 				}
 			}
+			for i, v := range vs {
+				if v.Invalid == "" {
+					if _, bad := v.Kinds[kind]; bad {
+						return cands[i]
+					}
+				}
+			}
+			cands = cands[k:]
 		}
-		if !progressed {
-			return cur
-		}
+		return nil
 	}
+	if j := fails(jumps(cur, kind)); j != nil {
+		cur = j
+		visited = append(visited, cur.sig())
+	}
+	for round := 0; round < 80; round++ {
+		if r := mc.get(kind, cur); r != nil {
+			mc.put(kind, visited, r)
+			return r
+		}
+		next := fails(reductions(cur, kind))
+		if next == nil {
+			break
+		}
+		cur = next
+		visited = append(visited, cur.sig())
+	}
+	mc.put(kind, visited, cur)
+	return cur
 }
 
 // ---------------------------------------------------------------------------
@@ -419,7 +568,7 @@ var jdLit = regexp.MustCompile(`\b\d{7}\.\d{6}\b`)
 func run(c *vf.Ctx) {
 	time.Local = time.UTC // the rewriter reads time.Now() in the local zone; see the time-zone sub-check
 	c.Rule("statements are rendered from specs: kind {select, insert, insert-select, upsert, update, delete, values} x 0..4 calls of {random, randomblob, date, time, datetime, julianday, unixepoch, strftime, timediff} (time value: implicit / 'now' in 5 spellings / parenthesised / bound parameter / literal / column; modifiers, formats, case, gap before '(') placed in {result column, scalar sub-select, CTE body, FROM sub-select, CASE condition, WHERE, IN sub-select, EXISTS, IN list, HAVING, JOIN ON, ORDER BY, LIMIT, compound arm, VALUES, SET, upsert SET/WHERE, RETURNING} with an expression wrapper, plus 0..4 syntactic features (about 120: operators, literals, comments, quoting, joins, windows, multi-statement texts) and decoys (the function words inside strings, identifiers, comments). non-trivial = contains >=1 call the property says is replaced AND (the original was observed to give different results under differently skewed clocks / repeated runs, or the text was changed by the rewriter); distinct by original SQL text")
-	c.Assume("evaluator children run stock SQLite (rqlite's go-sqlite3 build) on a fixed 2-table scratch schema; their clocks are skewed by 0 / +400 d / -3 y through the LD_PRELOAD shim, Go's clock is not")
+	c.Assume("evaluator children run stock SQLite (rqlite's go-sqlite3 build) on a fixed 2-table scratch schema; their clocks are skewed by 0 / +400 d 7:13:27 / -(3 y 5:41:13) through the LD_PRELOAD shim, Go's clock is not")
 	c.Assume("the reference for 'meaning' is the same spec rendered with every 'now' replaced by an ISO-8601 literal of instant T; it is validated for every case against the original evaluated under the real unskewed SQLite clock (cases where that fails are inconclusive, not violations)")
 	c.Assume(fmt.Sprintf("tolerance: the rewritten statement must equal the reference for some millisecond T in [t0-%dms, t1+%dms], t0/t1 = Go wall clock around sql.Process in this process (the rewriter prints a Julian day with 6 decimals = 86.4 ms steps)", tolMS, tolMS))
 	c.Assume("raw random values are compared by storage class and length against the reference, exactly between evaluations of the rewritten text; documented exclusions (ORDER BY random(), randomblob(non-literal), CURRENT_*) are compared by shape / as unordered rows")
@@ -433,7 +582,7 @@ func run(c *vf.Ctx) {
 	dir := vf.TempDir("c14")
 	defer os.RemoveAll(dir)
 
-	nLanes := 6
+	nLanes := 5
 	if runtime.NumCPU() < 8 {
 		nLanes = 2
 	}
@@ -482,47 +631,48 @@ func run(c *vf.Ctx) {
 		specs[i] = genSpec(c.Rand(uint64(i)))
 	}
 	results := make([]*caseResult, n)
-	var cacheMu sync.Mutex
-	keyCache := map[string]string{}
-	minCache := map[string]*spec{}
+	mc := &minCache{m: map[string]*spec{}}
+	const batch = 40
 	var wg sync.WaitGroup
 	for li, ln := range lanes {
 		wg.Add(1)
 		go func(li int, ln *lane) {
 			defer wg.Done()
-			for i := li; i < n; i += len(lanes) {
+			// lane li takes batches li, li+L, li+2L, ...
+			for start := li * batch; start < n; start += len(lanes) * batch {
+				end := start + batch
+				if end > n {
+					end = n
+				}
 				if ln.dead {
-					results[i] = &caseResult{N: i, Spec: specs[i], V: &verdict{Invalid: "evaluator lane died"}}
+					for i := start; i < end; i++ {
+						results[i] = &caseResult{N: i, Spec: specs[i], V: &verdict{Invalid: "evaluator lane died"}}
+					}
 					continue
 				}
-				sp := specs[i]
-				v := ln.judge(sp, processLocal)
-				cr := &caseResult{N: i, Spec: sp, V: v, Keys: map[string]string{}, Min: map[string]*spec{}}
-				if v.Invalid == "" {
+				vs := ln.judge(specs[start:end], processLocal)
+				for k, v := range vs {
+					i := start + k
+					sp := specs[i]
+					cr := &caseResult{N: i, Spec: sp, V: v, Keys: map[string]string{}, Min: map[string]*spec{}}
+					results[i] = cr
+					if v.Invalid != "" {
+						continue
+					}
 					for kind := range v.Kinds {
-						ck := kind + "|" + sp.sig()
-						cacheMu.Lock()
-						key, ok := keyCache[ck]
-						ms := minCache[ck]
-						cacheMu.Unlock()
-						if !ok {
-							budget := 400
-							ms = ln.minimize(sp, kind, &budget)
-							key = kind + ":" + ms.sig()
+						ms := mc.get(kind, sp)
+						if ms == nil {
+							var judged int64
+							ms = ln.minimize(sp, kind, &judged, mc)
 							c.Count("reductions_run", 1)
-							c.Count("reduction_judgements", int64(400-budget))
-							cacheMu.Lock()
-							keyCache[ck] = key
-							minCache[ck] = ms
-							cacheMu.Unlock()
+							c.Count("reduction_judgements", judged)
 						}
-						cr.Keys[kind] = key
+						cr.Keys[kind] = kind + ":" + ms.sig()
 						cr.Min[kind] = ms
 					}
 				}
-				results[i] = cr
-				if (i+1)%20000 == 0 {
-					c.Logf("case %d/%d", i+1, n)
+				if (start/batch)%100 == 0 {
+					c.Logf("case %d/%d", start, n)
 				}
 			}
 		}(li, ln)
@@ -606,7 +756,6 @@ func run(c *vf.Ctx) {
 	for k, n := range kindCount {
 		c.Count("failing:"+k, n)
 	}
-	c.Extra("finding_keys_seen", len(keyCache))
 
 	tzCheck(c, lanes[0])
 	stabilityCheck(c, lanes[0])
@@ -681,7 +830,7 @@ func tzCheck(c *vf.Ctx, ln *lane) {
 	for i := 0; i < n; i++ {
 		r := c.Rand(uint64(1<<40 + i))
 		sp := &spec{Kind: "select", Calls: []call{{Fn: pick(r, []string{"date", "time", "datetime", "julianday", "unixepoch", "strftime"}), Form: "now", Fmt: "%Y-%m-%d %H:%M:%S", Pos: "item"}}}
-		v := ln.judge(sp, remote)
+		v := ln.judge([]*spec{sp}, remote)[0]
 		if offset == 0 {
 			c.Count("tz_child_zone_not_applied", 1)
 			return
@@ -693,7 +842,7 @@ func tzCheck(c *vf.Ctx, ln *lane) {
 		if d, ok := v.Kinds["meaning"]; ok {
 			// the same spec must be fine when the rewriter runs in UTC, otherwise
 			// the zone is not the cause
-			if v2 := ln.judge(sp, processLocal); v2.Invalid == "" && len(v2.Kinds) == 0 {
+			if v2 := ln.judge([]*spec{sp}, processLocal)[0]; v2.Invalid == "" && len(v2.Kinds) == 0 {
 				bad++
 				c.Violation("meaning:server-local-time-used-as-utc",
 					fmt.Sprintf("rewriter running with TZ=Asia/Kolkata (UTC%+ds): %s | original: %s | rewritten: %s", offset, d, v.Orig, v.Rew),
@@ -764,7 +913,7 @@ func replay(c *vf.Ctx, ln *lane) {
 		c.Logf("replay: no spec in %s (%v)", c.ReplayFile, err)
 		return
 	}
-	v := ln.judge(f.Case.Spec, processLocal)
+	v := ln.judge([]*spec{f.Case.Spec}, processLocal)[0]
 	c.Eval(1)
 	c.Nontrivial(v.Orig)
 	c.Nontrivial(v.Rew + " ")
@@ -777,8 +926,8 @@ func replay(c *vf.Ctx, ln *lane) {
 		c.Held(1)
 	}
 	for kind, d := range v.Kinds {
-		budget := 400
-		ms := ln.minimize(f.Case.Spec, kind, &budget)
+		var judged int64
+		ms := ln.minimize(f.Case.Spec, kind, &judged, &minCache{m: map[string]*spec{}})
 		c.Violation(kind+":"+ms.sig(), d+" | original: "+v.Orig+" | rewritten: "+v.Rew, map[string]any{"spec": f.Case.Spec, "kind": kind, "reduced": ms, "verdict": v})
 	}
 }
